@@ -9,6 +9,10 @@
 
 #define SEND_BLOCK_SIZE 128000
 #define RECV_BLOCK_SIZE 16000
+#ifdef ASL_VERIF
+#undef SEND_BLOCK_SIZE
+#define SEND_BLOCK_SIZE asl_verif_knob("http.send_block", 128000)
+#endif
 
 #ifdef _MSC_VER
 #pragma warning(disable : 26451 26812)
